@@ -32,16 +32,16 @@ CHECKS["C08"] = ("exhaustive enumeration of small class/interface hierarchies (+
          "Root classes extend Exception so one hierarchy serves all judges; like is asserted for targets that declare their methods directly.")
 CHECKS["C09"] = ("controlled-schedule enumeration (DFS with replay) and rapid-drawn schedules over real goroutines parked at verif-tag hook points, history invariants at quiescence; plus -race stress of spawn scripts",
          "A controlled scheduler owns every decision point of Send/Close/Receive (hook points between the closed test and the chan operation); all interleavings of the small configurations are enumerated, larger ones drawn by rapid and shrunk; invariants: exactly-once, per-sender order, no phantom values, send after close fails, no panic, nobody stuck. A second engine runs spawn-based producer/consumer scripts through the interpreter built with -race at GOMAXPROCS 1..16.",
-         "Needs the verif build tag (hook in std/channel); blocking inside a real chan operation is recognised by a step timeout that only shapes the visited schedules.")
+         "Needs the verif build tag (hook in std/channel); blocking inside a real chan operation is recognised from the goroutine's runtime state (no timing assumption); the -race stress sends the loop variable itself.")
 CHECKS["C10"] = ("seeded concurrent stress under the race detector with a sequential-witness (linearizability-style) check of the recorded call history",
          "Rapid-drawn histories of 2..16 goroutines x up to 10^4 mixed registry calls over overlapping names on one VM, run in a -race worker at GOMAXPROCS 1..16; the worker must survive without a fatal concurrent-map error or race report, and the stamped history must admit a sequential witness (one winner per name, completed registrations visible, no phantom lookups, one global cell per name, final state = union).",
          "Go's scheduler owns the interleaving (stress, not schedule control): a green run is evidence, not exclusion; the race detector turns a latent race into a report without needing the bad interleaving.")
 CHECKS["C11"] = ("differential testing of generated HTTP handlers: concurrent (real goroutines / gated two-request interleavings) vs the same request served alone on a fresh VM",
          "Generated route handlers reading request inputs through the request object and the superglobals; engine (i) 2..64 requests in flight (GOMAXPROCS varied, -race build in thorough), engine (ii) every placement of a gate between two reads with the other request run to completion in between; status, headers and body must equal the alone run.",
-         "In-process mux with httptest recorders; handlers avoid by-design shared state; the parallel engine does not own the schedule, the gated engine does.")
+         "In-process mux with httptest recorders; handlers avoid by-design shared state; the parallel engine does not own the schedule, the gated engine does; requests carry a per-request tag in every value, so the one-at-a-time run has an absolute oracle too (no value of another request may appear), and half of the servers put a closure middleware in front of the routes.")
 CHECKS["C12"] = ("model-based stateful testing: exhaustive short histories + rapid histories over base and temporary VMs, every lookup on every VM compared with a set model after every step",
          "Histories of define (by parsing source through the VM's parser, or by Add*) / probing script / discard over one base VM and up to four temporary VMs with colliding names; after each step every VM answers GetClass / GetInterface / GetFunc / LoadPkg (and class_exists / function_exists / new / call) for every name and must agree with Base U Local[i].",
-         "Only resolvability is asserted for names defined on several VMs; intended write-through sharing (file cache, constants, globals) is not modelled.")
+         "For names defined on several VMs resolvability is asserted, and that the definition a script runs was made on the base VM or on the VM running it (each class reports where it was defined); intended write-through sharing (file cache, constants, globals) is not modelled.")
 CHECKS["C13"] = ("exhaustive enumeration of response-operation sequences and middleware stacks against a reference model of commit-once semantics; rapid longer sequences",
          "All sequences up to length 4 (thorough 6, symmetry-pruned) over 11 response operations as generated route handlers served through an instrumented ResponseWriter (WriteHeader count, header snapshot at commit); all middleware stacks of <= 5 entries with priorities {-1,0,0,1,5} in every registration order; longer sequences seeded.",
          "Single-operation body/header contributions are calibrated from the implementation; the model asserts ordering and commit semantics.")
